@@ -222,3 +222,8 @@ mod tests {
         }
     }
 }
+
+// Verification hook (compiled only by `cargo kani`, which sets `--cfg kani`).
+#[cfg(kani)]
+#[path = "/verif/harness/catch_gradual.rs"]
+pub(crate) mod verif_harness;
